@@ -5,7 +5,7 @@
    Proofs: Gate.v, Conv.v, Defaults.v, Ignored.v, Inventory.v. *)
 From Coq Require Import List NArith Bool.
 Import ListNotations.
-Require Import Base.Wire Base.PyStr C03.Model C03.Anti C01.Model C01.Gate C01.Conv C01.Defaults C01.Ignored C01.Inventory.
+Require Import Base.Wire Base.PyStr C03.Model C03.Anti C01.Model C01.Denial C01.Gate C01.Conv C01.Defaults C01.Ignored C01.Inventory.
 Require gen.T01.
 
 (* If the body of a command runs, then for every name n the gate asks about -- the last word Y,
@@ -13,8 +13,8 @@ Require gen.T01.
    the default allows the command or the caller holds n (or #chan,n).  Any database, channel,
    plugin, command path, converter spec. *)
 Theorem C01_gate :
-  forall d chan plugin canon command pre m,
-    In EvBody (callCommand_trace d chan plugin canon command pre m) ->
+  forall d chan nc plugin canon command pre m,
+    In EvBody (callCommand_trace d chan nc plugin canon command pre m) ->
     Forall (name_passes d chan) (gate_names canon command).
 Proof. exact gate_sound. Qed.
 Print Assumptions C01_gate.
@@ -23,58 +23,78 @@ Print Assumptions C01_gate.
    first prefix iteration (not holding P = holding -P, C03's anti-symmetry); the body never runs
    and the only output is one no-capability error. *)
 Theorem C01_owner_admin :
-  forall d chan P command pre m,
+  forall d chan nc P command pre m,
     (P = OWNER \/ P = ADMIN) -> db_ok d = true -> chan_ok chan = true ->
     (forall y r, rev command = y :: r -> wf_name y = true) -> command <> [] ->
     holds d P = Ok false ->
-    (exists v, callCommand_trace d chan P P command pre m = [EvNoCap v]) /\
-    ~ In EvBody (callCommand_trace d chan P P command pre m).
+    (exists v, callCommand_trace d chan nc P P command pre m = [EvNoCap v]) /\
+    ~ In EvBody (callCommand_trace d chan nc P P command pre m).
 Proof. exact owner_admin_denied. Qed.
 Print Assumptions C01_owner_admin.
 
 (* the same mechanism for any plugin whose name is a well-formed capability: holding -P refuses
    every command of P *)
 Theorem C01_plugin_anticap :
-  forall d chan P command pre m,
+  forall d chan nc P command pre m,
     wf_name P = true -> db_ok d = true -> chan_ok chan = true ->
     (forall y r, rev command = y :: r -> wf_name y = true) -> command <> [] ->
     holds d P = Ok false ->
-    exists v, callCommand_trace d chan P P command pre m = [EvNoCap v].
+    exists v, callCommand_trace d chan nc P P command pre m = [EvNoCap v].
 Proof. exact plugin_denied. Qed.
 Print Assumptions C01_plugin_anticap.
+
+(* errorNoCapability called with Raise=True, or without a Raise keyword, raises for EVERY configured message text,
+   the blank one included: an in-body check `if not checkCapability(...): irc.errorNoCapability(cap, Raise=True)`
+   aborts the command (Error propagates to _callCommand) and none of the effects after it happens. *)
+Theorem C01_denial_aborts :
+  forall text kw holds_cap rest,
+    kw_raises kw = true -> holds_cap = false ->
+    (exists t, errorNoCapability text kw = EncRaise t) /\
+    (exists t, inbody_check holds_cap text kw rest = [BDenied t]) /\
+    (forall n, ~ In (BEffect n) (inbody_check holds_cap text kw rest)).
+Proof. exact denial_aborts. Qed.
+Print Assumptions C01_denial_aborts.
+
+(* every errorNoCapability call site of the tree (src/ and all plugins) is of that aborting shape, and
+   _error / errorNoCapability / the proxies' error(Raise=True) have the decision structure the model mirrors *)
+Theorem C01_denial_sites :
+  denial_shape_ok = true /\
+  forall f e k, In (f, e, k) gen.T01.NOCAP_SITES -> exists kw, site_kw k = Some kw /\ kw_raises kw = true.
+Proof. split; [exact denial_shape_current|exact (nocap_sites_spec gen.T01.NOCAP_SITES nocap_sites_current)]. Qed.
+Print Assumptions C01_denial_sites.
 
 (* If the body runs, every gating converter at a top-level position of the spec asked for its
    capability (in the state the preceding converters left) and was answered True. *)
 Theorem C01_converters :
-  forall d chan plugin canon command pre l1 g l2 extra,
-    In EvBody (callCommand_trace d chan plugin canon command pre (Some (l1 ++ Gate g :: l2, extra))) ->
+  forall d chan nc plugin canon command pre l1 g l2 extra,
+    In EvBody (callCommand_trace d chan nc plugin canon command pre (Some (l1 ++ Gate g :: l2, extra))) ->
     exists s s' cap,
-      run_spec d chan l1 (CS None false) = COk s /\
+      run_spec d chan nc l1 (CS None false) = COk s /\
       gate_cap chan g s = (COk s', Ok cap) /\
       checkCapability d cap (gate_flags g) = Ok true.
 Proof. exact converters_checked. Qed.
 Print Assumptions C01_converters.
 
 Theorem C01_converter_owner :
-  forall d chan plugin canon command pre spec extra,
+  forall d chan nc plugin canon command pre spec extra,
     In (Gate GOwner) spec ->
-    In EvBody (callCommand_trace d chan plugin canon command pre (Some (spec, extra))) ->
+    In EvBody (callCommand_trace d chan nc plugin canon command pre (Some (spec, extra))) ->
     holds d OWNER = Ok true.
 Proof. exact owner_converter. Qed.
 Print Assumptions C01_converter_owner.
 
 Theorem C01_converter_admin :
-  forall d chan plugin canon command pre spec extra,
+  forall d chan nc plugin canon command pre spec extra,
     In (Gate GAdmin) spec ->
-    In EvBody (callCommand_trace d chan plugin canon command pre (Some (spec, extra))) ->
+    In EvBody (callCommand_trace d chan nc plugin canon command pre (Some (spec, extra))) ->
     holds d ADMIN = Ok true.
 Proof. exact admin_converter. Qed.
 Print Assumptions C01_converter_admin.
 
 Theorem C01_converter_channel :
-  forall d chan plugin canon command pre l1 l2 extra c a,
-    In EvBody (callCommand_trace d chan plugin canon command pre (Some (l1 ++ Gate (GChan c a) :: l2, extra))) ->
-    exists s ch, run_spec d chan l1 (CS None false) = COk s /\
+  forall d chan nc plugin canon command pre l1 l2 extra c a,
+    In EvBody (callCommand_trace d chan nc plugin canon command pre (Some (l1 ++ Gate (GChan c a) :: l2, extra))) ->
+    exists s ch, run_spec d chan nc l1 (CS None false) = COk s /\
       getChannel_conv chan a s = COk (CS (Some ch) (s_err s)) /\
       holds d (ch ++ [COMMA] ++ lower c) = Ok true.
 Proof. exact chan_converter. Qed.
